@@ -1,9 +1,10 @@
 CFG = {
-    "jobs": lambda tier: [J("scaled", "c12")],
+    "jobs": lambda tier: [J("scaled", "c12"), J("prod", "c12-cli", needs_repo_bins=["mlar"])],
     "rule": "scaled constants: generated archives (as C01) read fully, then linear extraction into the subsets {empty, each singleton, all in "
             "reverse order, one random subset}; plus layer-less archives whose data part is cut at every 5th (quick) / every (thorough) position "
             "before and after the end-of-data marker with the footer kept (so that the archive still opens); non-trivial = content present or a cut; "
-            "distinct = distinct (plan, subsets) or (archive, cut)",
+            "distinct = distinct (plan, subsets) or (archive, cut); plus, through the mlar binary, whole-archive extraction of archives of "
+            "3 / 1001 / 1300 (thorough: also 999, 1000, 1500, 2500) files written interleaved in 2-3 rounds (more files than the extractor keeps open)",
     "exhaustive": {"quick": False, "thorough": False},
     "explanation": "theorems: Ok implies the block walk reached an EndOfArchiveData tag (any stream, any bytes); data is delivered to chosen names "
                    "only; correspondence: rows of helpers::linear_extract on the real reader equal the model's; oracle: sink(n) = bytes written for n "
